@@ -91,7 +91,7 @@ impl<'a> DeserializationContext<'a> {
 
 impl<'a> BinaryInput for DeserializationContext<'a> {
     fn read_u8(&mut self) -> Result<u8> {
-        if self.current.pos == self.current.end {
+        if self.current.start + self.current.pos == self.current.end {
             Err(Error::InputEndedUnexpectedly)
         } else {
             self.current.pos += 1;
@@ -100,7 +100,7 @@ impl<'a> BinaryInput for DeserializationContext<'a> {
     }
 
     fn read_bytes(&mut self, count: usize) -> Result<&[u8]> {
-        if self.current.pos + count > self.current.end {
+        if count > self.current.end - (self.current.start + self.current.pos) {
             Err(Error::InputEndedUnexpectedly)
         } else {
             let start = self.current.start + self.current.pos;
@@ -110,7 +110,7 @@ impl<'a> BinaryInput for DeserializationContext<'a> {
     }
 
     fn skip(&mut self, count: usize) -> Result<()> {
-        if self.current.pos + count > self.current.end {
+        if count > self.current.end - (self.current.start + self.current.pos) {
             Err(Error::InputEndedUnexpectedly)
         } else {
             self.current.pos += count;
